@@ -25,7 +25,7 @@ Requirements for each seeded fault:
 2. It must need something SPECIFIC to manifest: a particular interleaving, a fault at a particular point, a multi-step sequence of operations, an unusual input/configuration, or two cooperating sites that each look fine alone. Ordinary use (and the existing tests) must not expose it at once.
 3. The library must still compile (with and without `-tags verif`) and the WHOLE existing test suite must still pass with your change: run `go1.26.8 test -vet=off -count=1 -timeout 25m ./...` and confirm `ok`. If an existing test fails, the fault is not acceptable - pick another. (A few tests are timing sensitive; if a failure looks unrelated re-run once to check.)
 4. It genuinely violates the property statement above (observable through the public API, delegates/callbacks, or bytes handed to the Transport), not merely an internal detail.
-5. Provide a demonstration: a NEW Go test file (package memberlist, name it zz_mutant_demo<k>_test.go) that FAILS with your change applied and PASSES on the unmodified tree. It may use internal functions and the in-package MockNetwork/MockTransport or a custom Transport. Verify both directions yourself (apply, run demo -> FAIL; `git stash`/revert, run demo -> PASS). Keep the demo deterministic.
+5. Provide a demonstration: a NEW Go test file (package memberlist, name it zz_mutant_demo<k>_test.go) that FAILS with your change applied and PASSES on the unmodified tree. It may use internal functions and the in-package MockNetwork/MockTransport or a custom Transport. Verify both directions yourself (apply, run demo -> FAIL; revert with `git diff > /tmp/own.diff && git checkout -- .`, run demo -> PASS; never use `git stash`: it is shared between worktrees). Keep the demo deterministic.
 
 Deliverables: create directory /tmp/wt-{pid}/.mutants/ and for each fault k=1..{n} write:
   .mutants/m<k>/patch.diff   (output of `git diff` for the library change ONLY, without the demo file; must apply with `git apply` to a clean checkout)
